@@ -49,6 +49,7 @@ class C12(fw.Prop):
         def impl():
             from dlms_cosem.hdlc import address, frames
             c, srv = address.HdlcAddress(16, None, "client"), address.HdlcAddress(1, 17, "server")
+            frames.FCS.calculate_for(first, lsb_first=True)      # (a caller using the other byte order must not disturb later frames)
             f = frames.InformationFrame(c, srv, payload=first, send_sequence_number=d["ssn"], receive_sequence_number=(d["rsn"] + 1) % 8)
             f.to_bytes()
             f.payload = payload
@@ -64,8 +65,33 @@ class C12(fw.Prop):
                     note += " !payload-differs"
             except Exception as e:  # noqa
                 note += " !valid-frame-refused:" + type(e).__name__
+            # a check value that is not the X-25 of the content is refused - with and without an information field
+            empty_head = (0xA000 | 10).to_bytes(2, "big") + bytes([0x21, 0x02, 0x23, ctrl])
+            empty_body = empty_head + x25_ref(empty_head)          # (the library's layout for an empty information field: HCS then FCS)
+            for what, content in (("info", body), ("no-info", empty_body)):
+                good = x25_ref(content)
+                for bad in (bytes([good[0] ^ 1, good[1]]), bytes([good[0], good[1] ^ 0x80]), good[::-1] if good[0] != good[1] else b"\x00\x00"):
+                    if bad == good:
+                        continue
+                    try:
+                        frames.InformationFrame.from_bytes(b"\x7e" + content + bad + b"\x7e")
+                        note += f" !wrong-check-value-accepted:{what}"
+                        break
+                    except Exception:  # noqa
+                        pass
             return "ok " + fw.hx(out[-3:-1]) + note
         return fw.Case(f"crc spec {fw.hx(body)}", impl, "prop", d, tags=("frame", "fcs-has-flag" if 0x7E in x25_ref(body) else "frame"))
+
+    _shared = None
+
+    @classmethod
+    def shared(cls):
+        """one calculator object for all cases of a run (as the library keeps one for all frames): what a call returns
+        must not depend on the calls before it - e.g. on an earlier call with the other byte order."""
+        if cls._shared is None:
+            from dlms_cosem.crc import CRCCCITT
+            cls._shared = CRCCCITT()
+        return cls._shared
 
     def make_case(self, d):
         if d.get("frame"):
@@ -76,6 +102,9 @@ class C12(fw.Prop):
 
         def impl():
             out = CRCCCITT().calculate_for(msg, lsb_first=lsb)
+            out2 = self.shared().calculate_for(msg, lsb_first=lsb)
+            if bytes(out2) != bytes(out):
+                return "ok " + fw.hx(out2) + " !shared-instance-differs-from-fresh " + fw.hx(out)
             ref = x25_ref(msg)
             if (out[::-1] if lsb else out) != ref:
                 return "ok " + fw.hx(out) + " !=ref " + fw.hx(ref)
